@@ -15,7 +15,7 @@ P = {
          "Declared primaries/white compared with the published values; the 9+9 matrix coefficients recovered by probing the public API and compared with an independently derived float64 matrix; linearity, no clamping and inversion on a 2^18 (quick) / 2^24 (thorough) lattice plus rapid triples in [-1,2]^3.",
          "Trusts the table of published chromaticities in internal/ref and its Gauss-Jordan inverse.", "4/C03"),
  "C04": ("exploration", "lattice + rapid pixels through the documented pipeline against an independent float64 colorimetric reference with an interval oracle",
-         "All 16 ordered space pairs; quick: 64^3 lattice, greys, cube faces, rapid pixels, alpha sweep; thorough: all 2^24 RGB per pair. Oracle is the float64 pipeline built from published formulas and declared chromaticities, compared through the encoder's own stated half-step/half-code interval.",
+         "All 16 ordered space pairs; quick: 64^3 lattice, greys, cube faces, rapid pixels, alpha sweep, a lattice of pixels each sent to every destination in turn (history: the preceding conversion of the same pixel); thorough: all 2^24 RGB per pair. Oracle is the float64 pipeline built from published formulas and declared chromaticities, compared through the encoder's own stated half-step/half-code interval.",
          "Trusts internal/ref (EOTF/OETF, Bradford, matrix derivation).", "4/C04"),
  "C05": ("exploration", "rapid grammar-built PNG/JPEG/WebP files + header field sweeps, differential against the generator's fields and std/x-image DecodeConfig; metamorphic over reader dynamic type/position",
          "Files are built from a grammar (every PNG colour type/bit depth, JPEG SOF0/SOF2 with random segments, VP8/VP8L/VP8X) and field sweeps over the dimension fields; results are compared with the written fields and with image/png, image/jpeg and x/image/webp DecodeConfig, through the specific loaders and autometa.",
